@@ -73,7 +73,7 @@ func (World) Assumptions(prop string) []string {
 		a = append(a, "the call value moved by ExecuteOnDestContext itself before the callee runs is not counted as a transfer of the inner call (probe call_value_of_failed_call_stays_moved); only storage writes and eei.Transfer calls made while the failed callee (or its callees) ran are",
 			"the final-output clause is evaluated only for transactions that end Ok (a caller that continued) and only for balance deltas of addresses whose balance moves by eei.Transfer alone")
 	case "C41":
-		a = append(a, "identifier of an issue = the key under which the token record appears in the esdt account, which must equal the identifier handed back (return data for semi/non-fungible, ESDTTransfer data for fungible)",
+		a = append(a, "identifier of an issue = the identifier handed back (return data for semi/non-fungible, ESDTTransfer data for fungible) and every key that newly appears in the esdt account; each is judged from the property text alone: 3-10 upper-case ASCII letters or digits, '-', six lower-case hex digits, and its ticker part is the requested ticker. Issues the contract refuses (illegal tickers) demand nothing",
 			"candidates derive from blake2b(caller || seed)[:3]; seeds near ffffff come from a table searched offline, collisions are made by pre-existing records",
 			"overwriting spare capacity of the caller / ticker argument buffers is not part of the statement: counted as probe arg_spare_capacity_overwritten")
 	}
@@ -89,7 +89,7 @@ func (World) Rule(prop string) string {
 	case "C40":
 		return "arm synth: 2-4 synthetic contracts with 2-8 program ops each (set, del, foreign set, transfer, nested call with/without value, planned failure always or at the n-th invocation, gas use), pre-existing storage, 1-2 transactions, gas limit swept in the gas arm; arms stake / deleg: the C39 / C38 run types with their real nested calls; non-trivial = a nested call failed after writing storage or transferring and the transaction still ended Ok (caller continued); distinct = hash of full plan"
 	case "C41":
-		return "3-14 issue calls (fungible, semi-fungible, non-fungible) by 1-3 callers with tickers of 3-10 characters, per call a random seed that is fresh, repeated, or taken from the near-ffffff table; before some issues 1-60 consecutive identifiers starting at the candidate are made pre-existing; non-trivial = >=2 successful issues of which one had to retry or met the ffffff boundary; distinct = hash of full plan"
+		return "3-14 issue calls (fungible, semi-fungible, non-fungible) by 1-3 callers with tickers that are legal (3-10 characters A-Z/0-9), legal except for 1-2 bytes drawn from all 256 values, arbitrary bytes of length 0-14 (mostly 1-3 and 10-12), or printable but outside the alphabet; per call a random seed that is fresh, repeated, or taken from the near-ffffff table; before some issues 1-60 consecutive identifiers starting at the candidate are made pre-existing; non-trivial = >=2 successful issues of which one had to retry or met the ffffff boundary; distinct = hash of full plan"
 	}
 	return ""
 }
